@@ -152,6 +152,8 @@ class Interp(object):
     def make(self, ty, name, st):
         head, args = parse_type(ty)
         reg = self.reg
+        if head == "Int" and args:
+            return Num(I(int(args[0])))          # Int[k]: the literal k (a field / parameter pinned by the case's typing)
         if head in ("Int", "Real"):
             return Num(reg.new(name, head))
         if head == "Dec":
@@ -191,8 +193,13 @@ class Interp(object):
         if head == "PyList":
             n = int(args[0])
             if len(args) == n + 1 and n > 1:
-                # PyList[n,T1,...,Tn]: a list display of n items of these types (one type per item)
-                return self.new_cell(st, PyListCell([self.make(args[k + 1], "%s_%d" % (name, k), st) for k in range(n)]))
+                # PyList[n,T1,...,Tn]: a list display of n items of these types (one type per item); an item typed
+                # Same[j] (j < its own position) is the very same object as item j (aliased columns)
+                items = []
+                for k in range(n):
+                    hk, ak = parse_type(args[k + 1])
+                    items.append(items[int(ak[0])] if hk == "Same" else self.make(args[k + 1], "%s_%d" % (name, k), st))
+                return self.new_cell(st, PyListCell(items))
             return self.new_cell(st, PyListCell([self.make(args[1], "%s_%d" % (name, k), st) for k in range(n)]))
         if head == "Tuple":
             return Tup([self.make(a, "%s_%d" % (name, k), st) for k, a in enumerate(args)])
@@ -241,6 +248,9 @@ class Interp(object):
             if args[0] not in BUILTINS:
                 raise Unsupported("Builtin[%s]" % args[0])
             return Fun("builtin", name=args[0])          # a field / parameter holding that python builtin (e.g. `tuple`)
+        if head == "IterLst":
+            from .lib_sib import make_iterlst     # a list of generator iterators of symbolic length (pyvc/lib_sib.py)
+            return make_iterlst(self, args, name, st)
         if head == "Fn":
             from .histlib import make_fn          # typed abstract callable Fn[A1,...,R]
             return make_fn(self, args, name, st)
@@ -252,6 +262,9 @@ class Interp(object):
             if not (isinstance(f, Fun) and f.kind in ("contract", "moddef")):
                 raise Unsupported("Def[%s]: not a function of the repository" % args[0])
             return f
+        if head in ("Tree", "KeySet", "TreeMap"):
+            from .iet import make_value          # include / exclude trees as values (pyvc/iet.py)
+            return make_value(self, head, name, st)
         raise Unsupported("type " + ty)
 
     def lst_sort(self, elemty):
@@ -470,6 +483,10 @@ class Interp(object):
                 # user objects: truthiness is their own business; abstract predicate
                 f = self.reg.ufun("obj_truthy", ["Obj"], "Bool")
                 return T("(%s %s)" % (f, v.t.s), "Bool")
+            from .iet import truth as iet_truth          # sets of strings / trees as values (pyvc/iet.py)
+            r = iet_truth(self, st, v)
+            if r is not None:
+                return r
             raise Unsupported("truth of opaque " + v.sort)
         if isinstance(v, Ref):
             cell = st.heap[v.cid]
@@ -728,6 +745,17 @@ class Interp(object):
                 self.assumptions.add("context values: `x is False` / `x is True` is a predicate of the ==-class of x (scalars "
                                      "that compare equal, such as False and 0, are one context value in the encoding)")
                 return val_is_const(self, x.t, y.t.s == "true")
+        if any(isinstance(x, Opaque) and x.sort == "Unk" for x in (a, b)) and any(isinstance(x, (Fun, Ref)) for x in (a, b)):
+            # a havocked field no class spec declares (calls.do_havoc: `a value nothing is known about`) may hold any
+            # object, also this function / heap object: the identity is not decided here
+            raise Unsupported("`is` between a value nothing is known about and %r" % (b if isinstance(a, Opaque) else a,))
+        for x, y in ((a, b), (b, a)):
+            if isinstance(x, Fun) and x.kind == "elem-method" and isinstance(y, (Ref, Opaque)) \
+                    and (isinstance(y, Ref) or y.sort == "Obj"):
+                # `el.<name>` of an ABSTRACT element read as a bound method (no obj_attrs declaration): the element may be
+                # the abstraction of an adapter whose attribute <name> holds this very object (callee: a Run instance in
+                # a list typed Lst[Obj], `d._el is arg` proved on the instance) -- the identity is not decided here
+                raise Unsupported("`is` between an undeclared attribute of an abstract element and an object")
         if isinstance(a, (Fun, Ref, Opaque, Num, Bool, Str, Tup)) and isinstance(b, (Fun, Ref, Opaque, Num, Bool, Str, Tup)) \
                 and type(a) is not type(b) and (isinstance(a, (Fun, Ref)) or isinstance(b, (Fun, Ref))):
             return FALSE      # a function / heap object is never identical to a value of another kind
@@ -1060,10 +1088,18 @@ class Interp(object):
         if self.is_seq(s, b):
             vb = self.as_view(s, b)
             if vb.items is not None:
+                if isinstance(a, Num) and lit_int(a.t) is not None and a.sort == "Int" \
+                        and all(isinstance(x, Num) and x.sort == "Int" and lit_int(x.t) is not None for x in vb.items):
+                    # an integer literal in a display of integer literals: decided here (no infeasible branch is explored)
+                    return TRUE if any(lit_int(x.t) == lit_int(a.t) for x in vb.items) else FALSE
                 return OR(*[self.py_eq(s, a, x) for x in vb.items])
             k = T("q%d" % next(self.bound), "Int")
             body = self.py_eq(s, a, vb.get(k))
             return T("(exists ((%s Int)) (and (<= 0 %s) (< %s %s) %s))" % (k.s, k.s, k.s, vb.len.s, body.s), "Bool")
+        from .iet import contains as iet_contains          # sets of strings / dicts of trees as values (pyvc/iet.py)
+        r = iet_contains(self, s, a, b)
+        if r is not None:
+            return r
         raise Unsupported("`in` on %r" % (b,))
 
     def key_term(self, k):
@@ -1158,9 +1194,16 @@ class Interp(object):
                 return []
             return [(s, Fun("method", recv=v, name=attr))]
         if isinstance(v, Opaque) and v.sort == "Obj":
+            from .vmembers import obj_attr_read          # a declared data attribute of an abstract element (ghost obj_attrs)
+            r = obj_attr_read(self, s, v, attr)
+            if r is not None:
+                return r
             return [(s, Fun("elem-method", elem=v, name=attr))]
         if isinstance(v, Tup) and attr in getattr(v, "ntfields", ()):
             return [(s, v.items[v.ntfields.index(attr)])]          # field of a namedtuple instance
+        if isinstance(v, Opaque) and v.sort == "Tree":
+            from .iet import tree_attr          # an include / exclude tree as an immutable value (pyvc/iet.py)
+            return tree_attr(self, s, v, attr)
         if isinstance(v, Opaque) and v.sort == "V":
             from .vmembers import attr_value          # a declared data attribute of an abstract flow value
             av = attr_value(self, v, attr)
@@ -1236,6 +1279,9 @@ class Interp(object):
             if type(cell).__name__ == "KeyMapCell":
                 from .keymap import km_index
                 return km_index(self, s, v, i)
+            if type(cell).__name__ == "IterLstCell":
+                from .lib_sib import iterlst_index
+                return iterlst_index(self, s, cell, v, i)
             if isinstance(cell, PyDictCell):
                 if isinstance(i, Str):
                     if i.s in cell.items:
@@ -1276,6 +1322,15 @@ class Interp(object):
                 return [(s, Str(v.s[k]))]
             self.raise_(s, "IndexError")
             return []
+        if isinstance(v, Opaque) and v.sort == "V":
+            from .vmembers import v_subscript          # v[k] of an abstract flow value (declared v_members __getitem__)
+            r = v_subscript(self, s, v, i)
+            if r is not None:
+                return r
+        from .iet import index as iet_index          # a dict of trees as a value (pyvc/iet.py)
+        r = iet_index(self, s, v, i)
+        if r is not None:
+            return r
         raise Unsupported("subscript of %r" % (v,))
 
     def index_items(self, s, items, i):
@@ -1416,6 +1471,10 @@ class Interp(object):
         r = alloc_comprehension(self, e, st)
         if r is not None:
             return [(st, r)]
+        from .lib_sib import iterlst_comprehension   # [next(g) for g in <list of generator iterators>]
+        r = iterlst_comprehension(self, e, st)
+        if r is not None:
+            return r
         # a list comprehension is evaluated eagerly: its items are computed in the state as it is NOW (a snapshot), not
         # in whatever the state object holds when the symbolic view is looked at later
         snap = st.copy()
@@ -1525,8 +1584,12 @@ class Interp(object):
 
         def get2(i):
             # the element together with the (throw-away) state it was evaluated in: cells it creates live only there
+            # (the state the evaluation ENDS in: a called lambda / inlined helper continues in a copy of s2)
             s2, _ = body(i)
-            return self.ev1(e.elt, s2), s2
+            res = self.ev(e.elt, s2)
+            if len(res) != 1:
+                raise Unsupported("expression forks in a non-forking context: " + ast.dump(e.elt)[:80])
+            return res[0][1], res[0][0]
         nv = View(src.len, get)
         nv.get2 = get2
         if getattr(src, "guard_len", None) is not None:
